@@ -467,9 +467,14 @@ where
     let two: T = (2.).as_T();
 
     // init point x0: f(x0) > 0
-    let x0 = -norm_r.recip()
-        + (ψ * norm_r + ((phi / norm_r / norm_r + ψ * ψ - T::one()) * phi).sqrt())
-            / (phi - norm_r * norm_r);
+    // NB: evaluated in a rearranged form.  The textbook expression
+    //   -1/r + (ψ*r + sqrt((phi/r^2 + ψ^2 - 1)*phi)) / (phi - r^2)
+    // subtracts two numbers of size 1/r and cancels to exactly 0 (and
+    // then to NaN below) once r^2/phi drops under machine precision
+    let ψ2m1 = ψ * ψ - T::one();
+    let v = ψ2m1 * norm_r * norm_r / phi;
+    let x0 = ((T::one() + ψ) * norm_r + ψ2m1 * norm_r / (T::one() + T::sqrt(T::one() + v)))
+        / (phi - norm_r * norm_r);
 
     // function for f(x) = 0
     let f0 = {
